@@ -2,6 +2,7 @@ package main
 
 import (
 	"fmt"
+	"os"
 	"go/constant"
 	"go/token"
 	"go/types"
@@ -49,15 +50,16 @@ func (e *Engine) callFunction(st *State, fn *ssa.Function, args []Value, bind []
 		return
 	}
 	e.nextSym++
-	fr := &Frame{fn: fn, regs: make(map[ssa.Value]Value, 64), depth: depth, k: k, id: e.nextSym}
+	fr := &Frame{fn: fn, depth: depth, k: k, id: e.nextSym}
+	st.newRegs(fr)
 	for i, p := range fn.Params {
 		if i < len(args) {
-			fr.regs[p] = args[i]
+			st.wregs(fr)[p] = args[i]
 		}
 	}
 	for i, fv := range fn.FreeVars {
 		if i < len(bind) {
-			fr.regs[fv] = bind[i]
+			st.wregs(fr)[fv] = bind[i]
 		}
 	}
 	for len(st.defers) <= depth {
@@ -73,6 +75,13 @@ func (e *Engine) runBlock(st *State, fr *Frame, b *ssa.BasicBlock, pred *ssa.Bas
 	st.visits[key]++
 	if st.visits[key] > e.loopBound+1 {
 		// unwinding point: only acceptable if the path is infeasible
+		if os.Getenv("ROSVC_DEBUGLOOP") != "" {
+			tail := ""
+			for i := len(st.pc) - 1; i >= 0 && i >= len(st.pc)-4; i-- {
+				tail += " | " + truncate(st.pc[i].S, 120)
+			}
+			fmt.Fprintf(os.Stderr, "DEBUG loop bound at %s block %d (%s) pc tail:%s\n", fr.fn.Name(), b.Index, e.pos(b.Instrs[0].Pos()), tail)
+		}
 		if e.solver != nil && !e.solver.feasible(e, st) {
 			return // infeasible: unwinding assertion holds
 		}
@@ -121,7 +130,7 @@ func (e *Engine) runBlock(st *State, fr *Frame, b *ssa.BasicBlock, pred *ssa.Bas
 			vals = append(vals, e.operand(st, fr, phi.Edges[idx]))
 		}
 		for j, phi := range phis {
-			fr.regs[phi] = vals[j]
+			st.wregs(fr)[phi] = vals[j]
 		}
 	}
 	e.runFrom(st, fr, b, i)
@@ -158,7 +167,7 @@ func (e *Engine) assignPhis(st *State, fr *Frame, b *ssa.BasicBlock, pred *ssa.B
 		vals = append(vals, e.operand(st, fr, phi.Edges[idx]))
 	}
 	for j, phi := range phis {
-		fr.regs[phi] = vals[j]
+		st.wregs(fr)[phi] = vals[j]
 	}
 }
 
@@ -230,7 +239,7 @@ func (e *Engine) runFrom(st *State, fr *Frame, b *ssa.BasicBlock, i int) {
 		case *ssa.Call:
 			ii := i
 			e.doCall(st, fr, &in.Call, in.Pos(), func(st *State, ret Value) {
-				fr.regs[in] = ret
+				st.wregs(fr)[in] = ret
 				e.runFrom(st, fr, b, ii+1)
 			})
 			return
@@ -302,7 +311,7 @@ func (e *Engine) operand(st *State, fr *Frame, v ssa.Value) Value {
 	case *ssa.Builtin:
 		return VAbs{Kind: "builtin", Data: x.Name()}
 	}
-	if r, ok := fr.regs[v]; ok {
+	if r, ok := st.rregs(fr)[v]; ok {
 		return r
 	}
 	return VUnknown{Typ: v.Type(), Note: "undefined register " + v.Name()}
@@ -393,7 +402,7 @@ func (e *Engine) step(st *State, fr *Frame, instr ssa.Instruction) bool {
 	case *ssa.Alloc:
 		elem := in.Type().(*types.Pointer).Elem()
 		cell := e.newCell(st, e.zeroOf(elem))
-		fr.regs[in] = VPtr{Cell: cell}
+		st.wregs(fr)[in] = VPtr{Cell: cell}
 	case *ssa.Store:
 		addr := e.operand(st, fr, in.Addr)
 		val := e.operand(st, fr, in.Val)
@@ -412,12 +421,12 @@ func (e *Engine) step(st *State, fr *Frame, instr ssa.Instruction) bool {
 	case *ssa.BinOp:
 		x := e.operand(st, fr, in.X)
 		y := e.operand(st, fr, in.Y)
-		fr.regs[in] = e.binop(st, in.Op, x, y, in.X.Type(), in.Type(), e.pos(in.Pos()))
+		st.wregs(fr)[in] = e.binop(st, in.Op, x, y, in.X.Type(), in.Type(), e.pos(in.Pos()))
 	case *ssa.FieldAddr:
 		x := e.operand(st, fr, in.X)
 		switch p := x.(type) {
 		case VPtr:
-			fr.regs[in] = VPtr{Cell: p.Cell, Path: fmt.Sprintf("%s.%d", p.Path, in.Field)}
+			st.wregs(fr)[in] = VPtr{Cell: p.Cell, Path: fmt.Sprintf("%s.%d", p.Path, in.Field)}
 		case VNil:
 			e.panicPath(st, fr.depth, "nil dereference (field) at "+e.pos(in.Pos()))
 			return false
@@ -425,15 +434,15 @@ func (e *Engine) step(st *State, fr *Frame, instr ssa.Instruction) bool {
 			// pointer to unmodelled object: make a detached lazy cell so execution can go on
 			ft := in.Type().(*types.Pointer).Elem()
 			cell := e.newCell(st, VLazy{ft, fmt.Sprintf("detached.%d", e.nextID())})
-			fr.regs[in] = VPtr{Cell: cell}
+			st.wregs(fr)[in] = VPtr{Cell: cell}
 			st.notes = append(st.notes, "field of unmodelled pointer at "+e.pos(in.Pos()))
 		}
 	case *ssa.Field:
 		x := e.operand(st, fr, in.X)
 		if s, ok := x.(VStruct); ok && in.Field < len(s.F) {
-			fr.regs[in] = s.F[in.Field]
+			st.wregs(fr)[in] = s.F[in.Field]
 		} else {
-			fr.regs[in] = e.havoc(st, in.Type(), "field")
+			st.wregs(fr)[in] = e.havoc(st, in.Type(), "field")
 		}
 	case *ssa.IndexAddr:
 		x := e.operand(st, fr, in.X)
@@ -442,7 +451,7 @@ func (e *Engine) step(st *State, fr *Frame, instr ssa.Instruction) bool {
 		switch p := x.(type) {
 		case VPtr:
 			if isConst {
-				fr.regs[in] = VPtr{Cell: p.Cell, Path: fmt.Sprintf("%s.%d", p.Path, ci)}
+				st.wregs(fr)[in] = VPtr{Cell: p.Cell, Path: fmt.Sprintf("%s.%d", p.Path, ci)}
 				return true
 			}
 		case VSlice:
@@ -451,52 +460,52 @@ func (e *Engine) step(st *State, fr *Frame, instr ssa.Instruction) bool {
 					e.panicPath(st, fr.depth, "index out of range at "+e.pos(in.Pos()))
 					return false
 				}
-				fr.regs[in] = VPtr{Cell: p.Cell, Path: fmt.Sprintf(".%d", p.Lo+ci)}
+				st.wregs(fr)[in] = VPtr{Cell: p.Cell, Path: fmt.Sprintf(".%d", p.Lo+ci)}
 				return true
 			}
 		}
 		et := in.Type().(*types.Pointer).Elem()
 		cell := e.newCell(st, VLazy{et, fmt.Sprintf("elem.%d", e.nextID())})
-		fr.regs[in] = VPtr{Cell: cell}
+		st.wregs(fr)[in] = VPtr{Cell: cell}
 		st.notes = append(st.notes, "symbolic IndexAddr at "+e.pos(in.Pos()))
 	case *ssa.Index:
 		x := e.operand(st, fr, in.X)
 		idx := e.operand(st, fr, in.Index)
 		if xs, ok := x.(VSym); ok && xs.T.Sort == SStr {
 			if is, ok := idx.(VSym); ok {
-				fr.regs[in] = sym(App(SInt, "s.at", xs.T, is.T))
+				st.wregs(fr)[in] = sym(App(SInt, "s.at", xs.T, is.T))
 				return true
 			}
 		}
 		if s, ok := x.(VStruct); ok {
 			if ci, isConst := constIndex(idx); isConst && ci < len(s.F) {
-				fr.regs[in] = s.F[ci]
+				st.wregs(fr)[in] = s.F[ci]
 				return true
 			}
 		}
-		fr.regs[in] = e.havoc(st, in.Type(), "index")
+		st.wregs(fr)[in] = e.havoc(st, in.Type(), "index")
 	case *ssa.Extract:
 		t := e.operand(st, fr, in.Tuple)
 		if tv, ok := t.(VTuple); ok && in.Index < len(tv.E) {
-			fr.regs[in] = tv.E[in.Index]
+			st.wregs(fr)[in] = tv.E[in.Index]
 		} else {
-			fr.regs[in] = e.havoc(st, in.Type(), "extract")
+			st.wregs(fr)[in] = e.havoc(st, in.Type(), "extract")
 		}
 	case *ssa.MakeInterface:
 		x := e.operand(st, fr, in.X)
-		fr.regs[in] = VIface{Typ: in.X.Type(), V: x}
+		st.wregs(fr)[in] = VIface{Typ: in.X.Type(), V: x}
 	case *ssa.ChangeInterface:
-		fr.regs[in] = e.operand(st, fr, in.X)
+		st.wregs(fr)[in] = e.operand(st, fr, in.X)
 	case *ssa.ChangeType:
-		fr.regs[in] = e.operand(st, fr, in.X)
+		st.wregs(fr)[in] = e.operand(st, fr, in.X)
 	case *ssa.Convert:
-		fr.regs[in] = e.convert(st, e.operand(st, fr, in.X), in.X.Type(), in.Type())
+		st.wregs(fr)[in] = e.convert(st, e.operand(st, fr, in.X), in.X.Type(), in.Type())
 	case *ssa.MakeClosure:
 		binds := make([]Value, len(in.Bindings))
 		for i, b := range in.Bindings {
 			binds[i] = e.operand(st, fr, b)
 		}
-		fr.regs[in] = VFunc{Fn: in.Fn.(*ssa.Function), Bind: binds}
+		st.wregs(fr)[in] = VFunc{Fn: in.Fn.(*ssa.Function), Bind: binds}
 	case *ssa.MakeMap:
 		mt := in.Type().Underlying().(*types.Map)
 		obj := &MapObj{Typ: mt}
@@ -515,7 +524,7 @@ func (e *Engine) step(st *State, fr *Frame, instr ssa.Instruction) bool {
 			obj.KeyTerms = map[string]Term{}
 		}
 		obj.Fresh = true
-		fr.regs[in] = VMap{e.newCell(st, obj)}
+		st.wregs(fr)[in] = VMap{e.newCell(st, obj)}
 	case *ssa.MakeSlice:
 		if isBytesType(in.Type()) {
 			l := e.operand(st, fr, in.Len)
@@ -524,7 +533,7 @@ func (e *Engine) step(st *State, fr *Frame, instr ssa.Instruction) bool {
 			if ls, ok := l.(VSym); ok {
 				st.assume(Eq(App(SInt, "b.len", b), ls.T))
 			}
-			fr.regs[in] = sym(b)
+			st.wregs(fr)[in] = sym(b)
 		} else {
 			// slice of structured elements: empty concrete slice when len is constant 0
 			l := e.operand(st, fr, in.Len)
@@ -535,13 +544,13 @@ func (e *Engine) step(st *State, fr *Frame, instr ssa.Instruction) bool {
 					fs[i] = e.zeroOf(et)
 				}
 				cell := e.newCell(st, VStruct{fs})
-				fr.regs[in] = VSlice{Cell: cell, Lo: 0, Hi: n}
+				st.wregs(fr)[in] = VSlice{Cell: cell, Lo: 0, Hi: n}
 			} else {
-				fr.regs[in] = VUnknown{Typ: in.Type(), Note: "makeslice"}
+				st.wregs(fr)[in] = VUnknown{Typ: in.Type(), Note: "makeslice"}
 			}
 		}
 	case *ssa.MakeChan:
-		fr.regs[in] = VAbs{Kind: "chan", ID: e.nextID()}
+		st.wregs(fr)[in] = VAbs{Kind: "chan", ID: e.nextID()}
 	case *ssa.Slice:
 		return e.sliceOp(st, fr, in)
 	case *ssa.Lookup:
@@ -615,31 +624,31 @@ func (e *Engine) unop(st *State, fr *Frame, in *ssa.UnOp) bool {
 	case token.MUL: // load
 		switch p := x.(type) {
 		case VPtr:
-			fr.regs[in] = e.load(st, p)
+			st.wregs(fr)[in] = e.load(st, p)
 		case VNil:
 			e.panicPath(st, fr.depth, "nil pointer dereference at "+e.pos(in.Pos()))
 			return false
 		default:
-			fr.regs[in] = e.havoc(st, in.Type(), "load")
+			st.wregs(fr)[in] = e.havoc(st, in.Type(), "load")
 			st.notes = append(st.notes, "load through unmodelled pointer at "+e.pos(in.Pos()))
 		}
 	case token.NOT:
 		if s, ok := x.(VSym); ok {
-			fr.regs[in] = sym(Not(s.T))
+			st.wregs(fr)[in] = sym(Not(s.T))
 		} else {
-			fr.regs[in] = e.havoc(st, in.Type(), "not")
+			st.wregs(fr)[in] = e.havoc(st, in.Type(), "not")
 		}
 	case token.SUB:
 		if s, ok := x.(VSym); ok {
-			fr.regs[in] = sym(Sub(IntLit(0), s.T))
+			st.wregs(fr)[in] = sym(Sub(IntLit(0), s.T))
 		} else {
-			fr.regs[in] = e.havoc(st, in.Type(), "neg")
+			st.wregs(fr)[in] = e.havoc(st, in.Type(), "neg")
 		}
 	case token.ARROW:
 		st.addTrace(TraceEv{Kind: "recv", Pos: e.pos(in.Pos())})
-		fr.regs[in] = e.havoc(st, in.Type(), "recv")
+		st.wregs(fr)[in] = e.havoc(st, in.Type(), "recv")
 	default:
-		fr.regs[in] = e.havoc(st, in.Type(), "unop")
+		st.wregs(fr)[in] = e.havoc(st, in.Type(), "unop")
 	}
 	return true
 }
@@ -1073,7 +1082,7 @@ func (e *Engine) sliceOp(st *State, fr *Frame, in *ssa.Slice) bool {
 			if hi < 0 {
 				hi = len(arr.F)
 			}
-			fr.regs[in] = VSlice{Cell: p.Cell, Lo: lo, Hi: hi}
+			st.wregs(fr)[in] = VSlice{Cell: p.Cell, Lo: lo, Hi: hi}
 			return true
 		}
 	case VSlice:
@@ -1089,11 +1098,11 @@ func (e *Engine) sliceOp(st *State, fr *Frame, in *ssa.Slice) bool {
 				e.panicPath(st, fr.depth, "slice bounds out of range at "+e.pos(in.Pos()))
 				return false
 			}
-			fr.regs[in] = VSlice{Cell: p.Cell, Lo: nlo, Hi: nhi}
+			st.wregs(fr)[in] = VSlice{Cell: p.Cell, Lo: nlo, Hi: nhi}
 			return true
 		}
 	case VNil:
-		fr.regs[in] = VNil{}
+		st.wregs(fr)[in] = VNil{}
 		return true
 	case VSym:
 		if p.T.Sort == SBytes || p.T.Sort == SStr {
@@ -1115,11 +1124,11 @@ func (e *Engine) sliceOp(st *State, fr *Frame, in *ssa.Slice) bool {
 			} else {
 				ht = App(SInt, lenf, p.T)
 			}
-			fr.regs[in] = sym(App(p.T.Sort, subf, p.T, lt, ht))
+			st.wregs(fr)[in] = sym(App(p.T.Sort, subf, p.T, lt, ht))
 			return true
 		}
 	}
-	fr.regs[in] = e.havoc(st, in.Type(), "slice")
+	st.wregs(fr)[in] = e.havoc(st, in.Type(), "slice")
 	st.notes = append(st.notes, "unmodelled slice op at "+e.pos(in.Pos()))
 	return true
 }
